@@ -11,14 +11,15 @@ Lemma alen_ax_cast ax k : alen (ax_cast ax k) = alen ax.
 Proof. unfold alen. rewrite alab_ax_cast. reflexivity. Qed.
 
 (* the sorted-merge branch of Axis.union: two different, non-empty, monotonic axes of consistent kinds sloping the
-   same way give the sorted union, strictly increasing when they increase and strictly decreasing when they decrease *)
+   same way - an axis of ONE label has no direction and follows the other - give the sorted union, strictly
+   increasing when they increase and strictly decreasing when they decrease *)
 Theorem axis_union_direction a b :
   snd (merge_kind (akind a) (akind b)) = true ->
   labels_eqb (alab a) (alab b) = false -> alen a <> 0 -> alen b <> 0 ->
   is_monotonic_labels (alab a) = true -> is_monotonic_labels (alab b) = true ->
-  slope_up (alab a) = slope_up (alab b) ->
+  same_slope (alab a) (alab b) = true ->
   let r := alab (axis_union a b) in
-  let down := label_le (last (alab a) LNone) (hd LNone (alab a)) in
+  let down := slopes_down (alab a) (alab b) in
   (down = false -> r = union1d (alab a) (alab b) /\ strictly label_ltb r = true) /\
   (down = true -> r = rev (union1d (alab a) (alab b)) /\ strictly (fun x y => label_ltb y x) r = true).
 Proof.
@@ -27,11 +28,18 @@ Proof.
   rewrite !alab_ax_cast, !alen_ax_cast, Hne.
   destruct (Nat.eqb_spec (alen a) 0) as [E|_]; [contradiction|].
   destruct (Nat.eqb_spec (alen b) 0) as [E|_]; [contradiction|].
-  rewrite Hma, Hmb, Hs, Bool.eqb_reflx. cbn [andb].
+  rewrite Hma, Hmb, Hs. cbn [andb].
   cbv zeta. split; intros Hd; rewrite Hd; cbn [alab ax_new]; (split; [reflexivity|]).
   - apply union1d_sorted.
   - apply strictly_rev. apply union1d_sorted.
 Qed.
+(* what "the same way" and "decreasing" mean: a single label has no direction *)
+Lemma slope_single x : slope [x] = None.
+Proof. reflexivity. Qed.
+Lemma same_slope_single x b : same_slope [x] b = true.
+Proof. unfold same_slope. simpl. reflexivity. Qed.
+Lemma slopes_down_single x b : slopes_down [x] b = match slope b with Some u => negb u | None => false end.
+Proof. reflexivity. Qed.
 
 (* sort=True: the labels of the sorted axis are in ascending order, and are a rearrangement of the axis' labels *)
 Theorem axis_sorted_ascending ax :
